@@ -386,6 +386,26 @@ def _ddp_outcome(s, settings, **kw):
     return {"loc": dd["locale"] or "", "res": [dt_to_list(d.replace(tzinfo=None)), dd["period"] or ""]}
 
 
+def install_locale_probe():
+    """log which locale every run of _DateLocaleParser.parse is made for (the locale loop's tries)"""
+    if _PROBE.get("locale_installed"):
+        return
+    _PROBE["locale_installed"] = True
+    try:
+        import dateparser.date as D
+        orig = D._DateLocaleParser.__dict__["parse"].__func__
+    except Exception:
+        _PROBE["unbound"].append("_DateLocaleParser.parse")
+        return
+
+    def parse(cls, locale, date_string, date_formats=None, settings=None):
+        r = orig(cls, locale, date_string, date_formats, settings)
+        _events().append({"ev": "locale_try", "loc": getattr(locale, "shortname", "?"), "ok": bool(r)})
+        return r
+
+    D._DateLocaleParser.parse = classmethod(parse)
+
+
 def call_c13(case):
     """case: {s, langs, given, defaults, settings, region: [lang, region] | null}"""
     st = decode_settings(case.get("settings") or {})
@@ -394,7 +414,11 @@ def call_c13(case):
     try:
         for L in case["order"]:
             res["singles"].append(_ddp_outcome(case["s"], dict(st), **{via: [L]}))
+        install_locale_probe()
+        _state.events = []
         res["multi"] = _ddp_outcome(case["s"], dict(st), use_given_order=bool(case["given"]), **{via: list(case["langs"])})
+        res["tries"] = [[e["loc"], e["ok"]] for e in _state.events if e.get("ev") == "locale_try"]
+        res["probe_bound"] = "_DateLocaleParser.parse" not in _PROBE["unbound"]
         st2 = dict(st)
         st2["DEFAULT_LANGUAGES"] = list(case["defaults"])
         res["multidef"] = _ddp_outcome(case["s"], st2, use_given_order=bool(case["given"]), **{via: list(case["langs"])})
@@ -416,6 +440,8 @@ def call_c13(case):
         res["exc"] = type(e).__name__
         for k in ("multi", "multidef", "auto", "reparse", "region", "asLocale"):
             res.setdefault(k, {"loc": "", "res": []})
+        res.setdefault("tries", [])
+        res.setdefault("probe_bound", False)
     return res
 
 
